@@ -22,10 +22,11 @@ type SubView struct {
 	Encoding    string
 	HasEncoding bool
 
-	DecodeErr string // why the payload does not decode as one well-formed document
-	Lenient   bool   // decodes only when content after the root element is ignored
-	XML       []byte
-	Root      *Node
+	DecodeErr  string // why the payload does not decode as one well-formed document
+	Lenient    bool   // decodes only when read forgivingly
+	LenientWhy string // duplicate-attribute | undeclared-prefix | content-outside-root-element
+	XML        []byte
+	Root       *Node
 }
 
 // formValues mimics what an HTTP form parser yields: body parameters first (only for form-typed POST bodies), then URL parameters.
@@ -107,27 +108,32 @@ func viewSubmitted(t *Task, rootLocal string) *SubView {
 func decodeProtocolDoc(v *SubView, rootLocal string) {
 	root, err := ParseXML(v.XML)
 	if err != nil {
-		// is it well-formed up to the end of the root element?
-		// ... or when character data in front of the root element is skipped as well?
-		if cut := rootEnd(v.XML); cut > 0 {
-			if r2, err2 := ParseXML(v.XML[:cut]); err2 == nil {
-				root, v.Lenient = r2, true
-			} else if i := strings.IndexByte(string(v.XML), '<'); i > 0 && i < cut {
-				if r3, err3 := ParseXML(v.XML[i:cut]); err3 == nil {
-					root, v.Lenient = r3, true
-				}
-			}
-		}
-		if root == nil {
+		// does it decode when read forgivingly (repeated attributes, undeclared prefixes, content outside the root element)?
+		r2, err2 := ParseXMLLenient(v.XML)
+		if err2 != nil {
 			v.DecodeErr = "not well-formed: " + err.Error()
 			return
 		}
+		root, v.Lenient, v.LenientWhy = r2, true, lenientClass(err.Error())
 	}
 	if root.NS != NSP || root.Local != rootLocal {
 		v.DecodeErr = "root element is not samlp:" + rootLocal
 		return
 	}
 	v.Root = root
+}
+
+// lenientClass names why a document is not well-formed although a forgiving reader gets through it.
+func lenientClass(e string) string {
+	switch {
+	case strings.Contains(e, "duplicate"):
+		return "duplicate-attribute"
+	case strings.Contains(e, "undeclared prefix"):
+		return "undeclared-prefix"
+	case strings.Contains(e, "outside root"), strings.Contains(e, "more than one root"), strings.Contains(e, "unexpected end element"):
+		return "content-outside-root-element"
+	}
+	return "content-outside-root-element"
 }
 
 // rootEnd returns the offset just behind the end tag of the root element, or 0.
